@@ -609,6 +609,23 @@ class Interp:
             ctx.target_active = True
         else:
             ctx.stats["inlined"].add(f.qualname)
+        if f.cached:
+            # memoisation decorator: the first result is kept for the whole process (here: the whole path) and returned again
+            try:
+                key = (f.qualname, tuple(args), tuple(sorted(kwargs.items())))
+                hash(key)
+            except TypeError:
+                raise Unsupported(f"memoised function {f.qualname} called with unhashable arguments")
+            cache = ctx.__dict__.setdefault("memo", {})
+            if key in cache:
+                return cache[key]
+            ctx.stats["assumed_calls"][f"memoised: {f.qualname}"] = 1
+            cache[key] = self._call_body(f, args, kwargs, closure_env)
+            return cache[key]
+        return self._call_body(f, args, kwargs, closure_env)
+
+    def _call_body(self, f, args, kwargs, closure_env=None):
+        ctx = self.ctx
         if ctx.depth > self.max_depth:
             raise Unsupported("recursion depth")
         env = Env(f.module, closure_env)
